@@ -165,55 +165,96 @@ def thorough_extras(pid, mod, rep, repo, ctx):
     base = {o["key"] for o in rep.violations()}
     os.environ["VFS_FACTS_TARGET"] = os.path.join(V, ".cache", "target-scratch")
 
-    def run_on_patch(patch):
-        w = tempfile.mkdtemp(prefix="selftest.")
-        try:
-            r = os.path.join(w, "r")
-            subprocess.run(["rsync", "-a", "--exclude", "target", "--exclude", ".git", repo.rstrip("/") + "/", r + "/"], check=True)
-            p = subprocess.run(["git", "apply", patch], cwd=r, capture_output=True, text=True)
-            if p.returncode != 0:
-                return None
-            try:
-                fp = extract(r, "all")
-            except Exception:
-                return "does-not-compile"
-            f3 = Facts(fp)
-            r3 = Report(pid)
-            c3 = dict(ctx)
-            c3["repo"] = r
-            try:
-                mod.run(f3, r3, "quick", c3)
-            except Exception as e:  # the self-test never decides the verdict on /repo; a crash on a mutant is an alarm there
-                T._TRACERS.clear()
-                return ["CRASH|%s: %s" % (type(e).__name__, str(e)[:80])]
-            T._TRACERS.clear()
-            return sorted(o["key"] for o in r3.violations() if o["key"] not in base)
-        finally:
-            shutil.rmtree(w, ignore_errors=True)
-
+    _ST.update({"repo": repo, "pid": pid, "ctx": ctx, "mod": mod, "base": base})
     seeds = sorted(glob.glob(os.path.join(V, "seeded", pid + "-m*")))
+    variants = sorted(glob.glob(os.path.join(V, "variants", "v*.diff")))
     st = {"seeded_changes": [], "variants": [], "skipped_for_time": []}
     budget = float(os.environ.get("VERIF_SELFTEST_BUDGET", "1500"))
+    jobs = int(os.environ.get("VERIF_SELFTEST_JOBS", "0") or 0) or max(1, min(6, (os.cpu_count() or 2) // 2))
     t_start = time.time()
-    for sd in seeds:
-        if time.time() - t_start > budget:
-            st["skipped_for_time"].append(os.path.basename(sd))
+    tasks = [("seed", os.path.basename(sd), os.path.join(sd, "patch.diff")) for sd in seeds] + \
+            [("variant", os.path.basename(vf), vf) for vf in variants]
+    results = {}
+    if jobs > 1 and len(tasks) > 1:
+        # scratch trees are independent: the patches are spread over worker processes (forked, so they share the loaded rule
+        # module and the base keys); each worker extracts into a target directory of its own
+        import multiprocessing
+        mp = multiprocessing.get_context("fork")
+        pool = mp.Pool(jobs)
+        try:
+            it = pool.imap(_selftest_worker, [t[2] for t in tasks])
+            for t in tasks:
+                left = budget - (time.time() - t_start)
+                if left <= 0:
+                    break
+                try:
+                    results[t[2]] = it.next(timeout=left)
+                except multiprocessing.TimeoutError:
+                    break
+        finally:
+            pool.terminate()
+            pool.join()
+    else:
+        for t in tasks:
+            if time.time() - t_start > budget:
+                break
+            results[t[2]] = _selftest_worker(t[2])
+    for kind, name, patch in tasks:
+        if patch not in results:
+            st["skipped_for_time"].append(name)
             continue
-        res = run_on_patch(os.path.join(sd, "patch.diff"))
-        st["seeded_changes"].append({"seed": os.path.basename(sd), "applies": res is not None,
-                                     "reported": bool(res) if res not in (None, "does-not-compile") else None,
-                                     "new_violation_keys": res[:4] if isinstance(res, list) else res})
-    for vf in sorted(glob.glob(os.path.join(V, "variants", "v*.diff"))):
-        if time.time() - t_start > budget:
-            st["skipped_for_time"].append(os.path.basename(vf))
-            continue
-        res = run_on_patch(vf)
-        st["variants"].append({"variant": os.path.basename(vf), "applies": res is not None,
-                               "silent": (res == []) if isinstance(res, list) else None,
-                               "new_violation_keys": res[:4] if isinstance(res, list) else res})
+        res = results[patch]
+        if kind == "seed":
+            st["seeded_changes"].append({"seed": name, "applies": res is not None,
+                                         "reported": bool(res) if res not in (None, "does-not-compile") else None,
+                                         "new_violation_keys": res[:4] if isinstance(res, list) else res})
+        else:
+            st["variants"].append({"variant": name, "applies": res is not None,
+                                   "silent": (res == []) if isinstance(res, list) else None,
+                                   "new_violation_keys": res[:4] if isinstance(res, list) else res})
+    st["jobs"] = jobs
     info["selftest"] = st
     os.environ.pop("VFS_FACTS_TARGET", None)
     return info
+
+
+_ST = {}
+
+
+def _selftest_worker(patch):
+    """apply one patch to a scratch copy of the tree and return the new violation keys of the property's rules on it
+    (None: does not apply; "does-not-compile"; ["CRASH|..."]: the rule module raised on the mutant)"""
+    import shutil
+    import tempfile
+    import multiprocessing
+    import analysis.terms as T
+    repo, pid, ctx, mod, base = _ST["repo"], _ST["pid"], _ST["ctx"], _ST["mod"], _ST["base"]
+    ident = multiprocessing.current_process()._identity
+    os.environ["VFS_FACTS_TARGET"] = os.path.join(V, ".cache", "target-scratch" + ("-%d" % ident[0] if ident else ""))
+    w = tempfile.mkdtemp(prefix="selftest.")
+    try:
+        r = os.path.join(w, "r")
+        subprocess.run(["rsync", "-a", "--exclude", "target", "--exclude", ".git", repo.rstrip("/") + "/", r + "/"], check=True)
+        p = subprocess.run(["git", "apply", patch], cwd=r, capture_output=True, text=True)
+        if p.returncode != 0:
+            return None
+        try:
+            fp = extract(r, "all")
+        except Exception:
+            return "does-not-compile"
+        f3 = Facts(fp)
+        r3 = Report(pid)
+        c3 = dict(ctx)
+        c3["repo"] = r
+        try:
+            mod.run(f3, r3, "quick", c3)
+        except Exception as e:  # the self-test never decides the verdict on /repo; a crash on a mutant is an alarm there
+            T._TRACERS.clear()
+            return ["CRASH|%s: %s" % (type(e).__name__, str(e)[:80])]
+        T._TRACERS.clear()
+        return sorted(o["key"] for o in r3.violations() if o["key"] not in base)
+    finally:
+        shutil.rmtree(w, ignore_errors=True)
 
 
 def main():
